@@ -188,7 +188,8 @@ def m_clone_generic(it, st, callee, args, dest_tid, site):
 
 def deep_clone(it, st, v):
     if isinstance(v, Opaque) and 'buf' in v.f:
-        o = st.alloc(st.heap[v.f['buf']])
+        b = st.heap[v.f['buf']]
+        o = st.alloc(b.copied() if isinstance(b, Buf) else b)
         return v.replace(buf=o)
     if isinstance(v, Agg):
         return Agg(v.kind, v.tid, [deep_clone(it, st, x) for x in v.fields])
@@ -201,6 +202,15 @@ def deep_clone(it, st, v):
        doc='deep copy of the owned buffer(s)')
 def m_vec_clone(it, st, callee, args, dest_tid, site):
     return [(st, deep_clone(it, st, deref(it, st, args[0])))]
+
+@model('std::slice::<impl [T]>::to_vec', doc='copy of a whole-buffer slice into a new Vec (same contents, same length)')
+def m_to_vec(it, st, callee, args, dest_tid, site):
+    sl = as_slice(it, st, args[0])
+    buf = it.read(st, sl.obj, sl.path)
+    if not isinstance(buf, Buf) or not (sl.start.is_const and sl.start.val == 0 and sl.len is buf.len) or sl.flat:
+        raise Unsupported('to_vec of a partial or reinterpreted slice')
+    o = st.alloc(buf.copied())
+    return [(st, Opaque('vec', buf=o))]
 
 # ------------------------------------------------------------------------------ Vec
 @model('std::vec::from_elem', doc='vec![elem; n]: new buffer of symbolic length n uniformly initialised')
